@@ -386,6 +386,11 @@ def _conflicts(ctx, P):
                     bad = bad or f"a user-supplied `{key}` together with a parsed one is merged/accepted instead of refused"
                 elif isinstance(o.env.get("self").attrs.get("axes"), dict):
                     bad = bad or f"the conflict on `{key}` is reported only after the axes were built"
+            # (b') ... also when the user's value happens to be falsy: 0 is a fill value, an empty mapping is a mapping - "nothing given" is None
+            falsy = {"coords": {}, "fill_value": 0, "default_shifts": {}, "boundary": "", "face_connections": {}, "metrics": {}}[key]
+            for o in run(parsed, {key: copy.deepcopy(falsy)}):
+                if o.kind != "raise":
+                    bad = bad or f"a user-supplied `{key}`={falsy!r} together with a parsed one is silently replaced by the parsed value instead of refused (truthiness in place of `is None`)"
             if key == "coords":
                 # ... also when the user's coords describe another axis than the parsed ones: rejected, not merged
                 other = {Sym("AY"): {"center": dimsym("AY", "center"), "left": dimsym("AY", "left")}}
